@@ -72,6 +72,14 @@ class TaskError(ValueError):
     pass
 
 
+def expected_value(cfg, i):
+    """what the task computes for id i (a generator task's value is the list of what one complete run yields)"""
+    for j, _k, how in cfg.get("flaky", []):
+        if int(j) == i and how.startswith("gen"):
+            return [("part", i, 0), ("part", i, 1)]
+    return payload(i)
+
+
 def payload(i):
     return ("ok", i * 10 + 1)
 
@@ -191,6 +199,15 @@ class Execution:
                 # raised directly or as the context of another exception; annet retries such a task net_retry times
                 k, how = flaky[dev_id]
                 attempts[dev_id] += 1
+                if how.startswith("gen"):
+                    # a task written as a generator (as annet's own workers are): it hands out part of its result, then the
+                    # connection drops; the value of the id is what the successful attempt alone yields
+                    def parts(fail):
+                        yield ("part", dev_id, 0)
+                        if fail:
+                            raise ConnectionResetError("net-%s" % dev_id)
+                        yield ("part", dev_id, 1)
+                    return parts(k < 0 or attempts[dev_id] <= k)
                 if k < 0 or attempts[dev_id] <= k:
                     if how == "wrapped":
                         try:
@@ -296,7 +313,7 @@ class Execution:
                                 "id %r: success=%r fail=%r" % (i, succ, sorted(fail))))
             succ = {i: v for i, v in succ.items() if i not in unpick}
             fail = {i: v for i, v in fail.items() if i not in unpick}
-            exp_s = {i: payload(i) for i in ids if i not in raising and i not in unpick}
+            exp_s = {i: expected_value(cfg, i) for i in ids if i not in raising and i not in unpick}
             if succ != exp_s or set(fail) != raising:
                 out.append(({"kind": "run-result"},
                             "success=%r fail=%r expected success=%r fail ids=%r" % (succ, sorted(fail), exp_s, sorted(raising))))
@@ -316,7 +333,7 @@ class Execution:
                         out.append(({"kind": "payload", "what": "callback-failure-not-reported"}, repr((i, res, exc))))
                 elif exc != ("net-%s" if i in net_fail else "boom-%s") % i or res is not None:
                     out.append(({"kind": "payload", "what": "failure-not-reported"}, repr((i, res, exc))))
-            elif res != payload(i) or exc is not None:
+            elif res != expected_value(cfg, i) or exc is not None:
                 out.append(({"kind": "payload", "what": "wrong-value"}, repr((i, res, exc))))
         dup = [i for i, c in collections.Counter(got_ids).items() if c > 1]
         if dup:
@@ -488,6 +505,11 @@ def cfgs(tier):
         add(full, 2, pool, 25, flaky=[[0, -1, "wrapped"], [1, 3, "wrapped"]])
         add(full, 2, pool, 25, flaky=[[0, 4, "direct"]], tolerate=0)
     add(full, 2, 2, 1, flaky=[[1, -1, "direct"]], api="run")
+    # generator tasks that yield part of their result before the connection drops
+    for pool in (1, 2):
+        add(full, 2, pool, 25, flaky=[[0, 1, "gen"], [1, 0, "gen"]])
+        add(full, 2, pool, 1, flaky=[[1, 2, "gen"]])
+    add(full, 2, 2, 25, flaky=[[0, 2, "gen"], [1, -1, "gen"]], api="run")
     # a task whose result cannot be pickled (the pool turns it into a failure before it is queued; in-process it is the value)
     for pool in (1, 2):
         add(full, 2, pool, 25, unpicklable=[1])
